@@ -19,6 +19,7 @@ ARDUINOJSON_BEGIN_PUBLIC_NAMESPACE
 // https://arduinojson.org/v7/api/jsondocument/
 class JsonDocument : public detail::VariantOperators<const JsonDocument&> {
   friend class detail::VariantAttorney;
+  ARDUINOJSON_VERIF_FRIEND
 
  public:
   explicit JsonDocument(Allocator* alloc = detail::DefaultAllocator::instance())
